@@ -150,7 +150,9 @@ def decide(pid, tier, seed, replay, t0):
     mod.run(ctx, res)
 
     # 4. verdict --------------------------------------------------------------
-    concrete = [v for v in res.violations if not v.no_input]
+    known_now = {k["key"] for k in core.load_known() if k.get("property") == pid and k.get("kind") == "known"}
+    # a known finding is not an explanation for a broken proof or tie
+    concrete = [v for v in res.violations if not v.no_input and v.key not in known_now]
     if (proof_broken or tie_broken) and not concrete:
         what = "; ".join([f"theorems of {m} no longer check over the regenerated model" for m in proof_broken]
                          + tie_broken)
